@@ -20,6 +20,10 @@ def run(ctx):
         ic.rule_bit_reads(ctx, cfg, r9)
         r2 = ctx.rule("R05.2" + sfx, "panic-site census: every index into a fixed-size array on the decode path is proved in range or is in the reviewed residue", floor=3, config=cfg)
         ic.rule_panic_census(ctx, cfg, r2)
+        from rules import copyrt
+        r10 = ctx.rule("R05.10" + sfx, "match copy routines index inside the buffer: every shortcut of transfer / apply_match is guarded by the direction and "
+                       "distance it assumes (a `pos - 1` / `source..source+3` access under the wrong guard is a slice-index panic in a ring buffer)", floor=10, config=cfg)
+        copyrt.rule_copy_routines(ctx, cfg, r10)
     # the streaming wrapper: a failed stream stays failed (sticky last_status), also on the first-call Finish path
     from rules import c13
     c13.run_cfg(ctx, "H1", only=("R13.2", "R13.4", "R13.8"), prefix="R05.9/")
